@@ -19,7 +19,7 @@ BOUNDS = {"quick": "LV(4,3) x 9 dtypes x 2 patterns x {sum,prod,any,all,max,min,
 NAMED = ["sum", "prod", "any", "all", "max", "min", "mean", "argmax", "argmin"]
 NEEDS_NONEMPTY = {"max", "min", "mean", "argmax", "argmin", "maximum", "minimum"}
 UFUNCS = ["add", "multiply", "logical_and", "logical_or", "logical_xor", "bitwise_and", "bitwise_or", "bitwise_xor", "maximum", "minimum"]
-FORMS = ["method", "func", "axis1", "keepdims", "axis1_keepdims", "none"]
+FORMS = ["method", "func", "axis1", "keepdims", "axis1_keepdims", "func_keepdims", "none"]
 
 
 def shards(tier):
@@ -151,6 +151,9 @@ def check(case, acc):
         elif form == "axis1_keepdims":
             acc.feature("keepdims")
             call = lambda: getattr(ra, op)(axis=1, keepdims=True)
+        elif form == "func_keepdims":
+            acc.feature("keepdims")
+            call = lambda: npf(ra, axis=-1, keepdims=True)
         else:
             acc.feature("axis_none")
             call = lambda: npf(ra)
@@ -203,7 +206,7 @@ def check(case, acc):
         if not may_refuse:
             acc.fail("refused", exp_rows, obs, classifier=_classify(case, lens))
         return
-    want_shape = (n, 1) if form in ("keepdims", "axis1_keepdims", "reduce_keepdims") else (n,)
+    want_shape = (n, 1) if form in ("keepdims", "axis1_keepdims", "func_keepdims", "reduce_keepdims") else (n,)
     # ufunc.reduce(..., keepdims=True): only the numbers are demanded (the keepdims wrapper the statement
     # refers to belongs to the named reductions; the raw reduce method returns the same numbers flat)
     if obs[1] != want_shape and not (form == "reduce_keepdims" and obs[1] == (n,)):
